@@ -129,6 +129,9 @@ func runStandard(t *testing.T, p *Prop, sc *world.Scenario, out *Outcome) {
 	c := &Ctx{W: w, Sc: sc, Out: out, T: t}
 	n := w.AddNode()
 	n.B.SetCurrentRevision(sc.InitRev)
+	for i := int64(1); i < sc.Extra["nodes"]; i++ {
+		w.AddNode() // a cold node over the same engine: empty event cache, revision not yet initialised
+	}
 	if p.Setup != nil {
 		p.Setup(c)
 	}
